@@ -211,11 +211,13 @@ task_intervals.contract_fn = "heavy.ImmutableKnotVector.__or__"
 
 def tasks(tier, seed):
     from ..pyvc.driver import verify
-    from ..contracts import facade, facade2
+    from ..contracts import facade, facade2, kvor
     # engine V, all vectors: `U | V` / `U & V` return a NEW object on the operands' interval and leave the operand's payload in place; `|=` / `&=`
     # install the result atomically (the values of the merge are decided per joint shape below)
     ts = [(verify, (c, m, q, v)) for c, m, q, v in facade2.ALL if c.name.endswith(("__or__", "__and__"))]
     ts += [(verify, (c, m, q, v)) for c, m, q, v in facade.ALL if c.name.endswith(("__ior__", "__iand__"))]
+    # the multiplicity rule itself, for vectors of every length and degree: per distinct knot max(mult + degree raise) for |, min(mult) for &
+    ts += [(verify, (c, m, q, v)) for c, m, q, v in kvor.ALL]
     return ts + [(task_intervals, ())] + [(task_union, (js,)) for js in tier_joint(tier)]
 
 
